@@ -24,7 +24,7 @@ PROPS = {
 }
 
 PROPS['C07'] = dict(
-    sess=[('sess_c07', 300, 4000)],
+    sess=[('sess_c07', 300, 4000), ('py_c07', 300, 4000)],
     events='w', state=['ret', 'rel', 'pid', 'h', 'gen', 'conn'],
     monitors=[M.mon_c07],
     title='packet identifiers in flight are non-zero and pairwise distinct',
